@@ -187,7 +187,23 @@ pub fn apply_rewrite(h: &H, kind: &str, r: &mut Rng, root_ty: &GT, explicit: boo
     let n = nodes(h);
     let mut fresh = fresh_names(h);
     match kind {
-        "rename-binders" => Some(rename_all(h, &mut fresh)),
+        "rename-binders" => {
+            // several naming schemes: ascending, lexicographically descending, very long,
+            // non-ASCII, keyword-like prefixes
+            let scheme = r.below(5);
+            let mut named = |hint: &str| -> String {
+                let base = fresh(hint);
+                let k: usize = base.rsplit('_').next().and_then(|x| x.parse().ok()).unwrap_or(0);
+                match scheme {
+                    0 => base,
+                    1 => format!("z{:06}", 999_999 - k.min(999_999)),
+                    2 => format!("a_rather_long_name_for_a_bound_variable_number_{k}_of_this_program"),
+                    3 => format!("\u{e9}\u{540d}{k}"),
+                    _ => format!("{}{k}", ["iff", "int", "typed", "thenn", "elsee", "boolean", "truee"][k % 7]),
+                }
+            };
+            Some(rename_all(h, &mut named))
+        }
         "redundant-parentheses" => {
             for _ in 0..10 {
                 let t = r.usize(n);
